@@ -37,7 +37,11 @@ QuadTrisOther == <<<<1,2,4>>, <<2,3,4>>>>          \* the other diagonal (used o
 StripS == <<P(0,0), P(2,0), P(4,1), P(0,2), P(2,3), P(5,3)>>
 StripT == <<P(0,1), P(2,0), P(5,0), P(1,3), P(3,3), P(6,4)>>
 StripTris == <<<<1,2,4>>, <<2,5,4>>, <<2,3,5>>, <<3,6,5>>>>
-Meshes == [fan |-> [S |-> FanS, T |-> FanT, tris |-> FanTris, other |-> <<<<1,2,3>>, <<1,3,4>>, <<1,3,5>>>>],
+\* "notch": the fan with one wedge left out - a domain that is NOT the convex hull of its vertices (the triangle list, not
+\* a triangulation recomputed from the points, defines where the warp exists)
+NotchTris == <<<<1,2,5>>, <<2,3,5>>, <<3,4,5>>>>
+Meshes == [notch |-> [S |-> FanS, T |-> FanT, tris |-> NotchTris, other |-> <<<<1,2,3>>, <<1,3,4>>, <<1,3,5>>>>],
+           fan |-> [S |-> FanS, T |-> FanT, tris |-> FanTris, other |-> <<<<1,2,3>>, <<1,3,4>>, <<1,3,5>>>>],
            quad |-> [S |-> QuadS, T |-> QuadT, tris |-> QuadTris, other |-> QuadTrisOther],
            strip |-> [S |-> StripS, T |-> StripT, tris |-> StripTris, other |-> <<<<1,2,3>>, <<4,5,6>>>>]]
 \* sample points of a triangle by barycentric weights (interior, edges, vertices)
@@ -46,6 +50,8 @@ PtAt(S, t, w) == VAdd(S[t[1]], VAdd(VScale(w[1], VSub(S[t[2]], S[t[1]])), VScale
 WSeq == <<<<Q(1,3),Q(1,3)>>, <<Q(1,2),Q(1,4)>>, <<Q(1,5),Q(3,5)>>, <<Q(1,2),Z0>>, <<Z0,Q(1,2)>>, <<Q(1,2),Q(1,2)>>, <<Z0,Z0>>, <<O1,Z0>>, <<Z0,O1>>>>
 InPts(S, Tris) == [k \in 1..(Len(Tris) * Len(WSeq)) |-> PtAt(S, Tris[((k-1) \div Len(WSeq)) + 1], WSeq[((k-1) % Len(WSeq)) + 1])]
 OutPts == <<P(-1,-1), P(10,1), <<Q(-1,2), R(1)>>, P(2,9)>>
+\* (for the notch: points inside the hull but in the missing wedge, and one far away)
+OutPtsOf(m) == IF m = "notch" THEN << <<Q(1,2), R(2)>>, P(10,1), <<Q(1,4), R(2)>>, <<Q(1,2), Q(3,2)>> >> ELSE OutPts
 \* ---- cases -----------------------------------------------------------------------------------
 PwaCases == {[kind |-> "pwa", mesh |-> m, cls |-> c, tgt |-> tk] : m \in DOMAIN Meshes, c \in {"PiecewiseAffine", "PythonPWA"},
                tk \in {"pointcloud", "trimesh_same", "trimesh_other"}}
@@ -72,13 +78,13 @@ NudgeSeq(m) == LET M == Meshes[m] IN SetToSeqW({x \in NudgeSet(m) : JudgedEps(M.
 NudgeCases == {[kind |-> "nudge", mesh |-> m, batch |-> b] : m \in {"fan", "quad"}, b \in {0, 1, 3, 7}}
 TpsCases == {[kind |-> "tps", mesh |-> m, kernel |-> k, msv |-> v] : m \in DOMAIN Meshes, k \in {"default", "R2LogR2RBF", "R2LogRRBF"}, v \in {"default", "1e-3"}}
 Cases == (IF "pwa" \in Kinds THEN PwaCases ELSE {}) \cup (IF "mask" \in Kinds THEN MaskCases \cup NudgeCases ELSE {}) \cup (IF "tps" \in Kinds THEN TpsCases ELSE {})
-MaskPts(m, mk) == LET M == Meshes[m] ins == InPts(M.S, M.tris) IN [i \in 1..5 |-> IF mk[i] THEN ins[2*i] ELSE OutPts[((i-1) % 4) + 1]]
+MaskPts(m, mk) == LET M == Meshes[m] ins == InPts(M.S, M.tris) IN [i \in 1..5 |-> IF mk[i] THEN ins[2*i] ELSE OutPtsOf(m)[((i-1) % 4) + 1]]
 Out(c) ==
   CASE c.kind = "pwa" -> LET M == Meshes[c.mesh] ins == InPts(M.S, M.tris) insT == InPts(M.T, M.tris) IN
          [case |-> c, S |-> M.S, T |-> M.T, tris |-> M.tris, other |-> M.other,
           pts |-> ins, img |-> [i \in 1..Len(ins) |-> ApplyPWA(M.S, M.T, M.tris, ins[i])],
           ptsT |-> insT, imgInv |-> [i \in 1..Len(insT) |-> ApplyPWA(M.T, M.S, M.tris, insT[i])],
-          outside |-> OutPts]
+          outside |-> OutPtsOf(c.mesh)]
     [] c.kind = "mask" -> LET M == Meshes[c.mesh] ps == MaskPts(c.mesh, c.mask) IN
          [case |-> c, S |-> M.S, T |-> M.T, tris |-> M.tris, pts |-> ps,
           outmask |-> [i \in 1..5 |-> ~InDomain(M.S, M.tris, ps[i])],
@@ -104,6 +110,6 @@ Continuous == IsPwa => \A p \in {PtAt(Mesh.S, Mesh.tris[n], w) : n \in 1..Len(Me
 TwoSided == IsPwa => LET ins == InPts(Mesh.S, Mesh.tris) insT == InPts(Mesh.T, Mesh.tris) IN
               /\ \A i \in 1..Len(ins) : ApplyPWA(Mesh.T, Mesh.S, Mesh.tris, ApplyPWA(Mesh.S, Mesh.T, Mesh.tris, ins[i])) = ins[i]
               /\ \A i \in 1..Len(insT) : ApplyPWA(Mesh.S, Mesh.T, Mesh.tris, ApplyPWA(Mesh.T, Mesh.S, Mesh.tris, insT[i])) = insT[i]
-OutsideIsOutside == IsPwa => \A i \in 1..Len(OutPts) : ~InDomain(Mesh.S, Mesh.tris, OutPts[i])
+OutsideIsOutside == IsPwa => \A i \in 1..4 : ~InDomain(Mesh.S, Mesh.tris, OutPtsOf(case.mesh)[i])
 MaskConsistent == case.kind = "mask" => \A i \in 1..5 : InDomain(Meshes[case.mesh].S, Meshes[case.mesh].tris, MaskPts(case.mesh, case.mask)[i]) = case.mask[i]
 =======================================================================
